@@ -465,7 +465,7 @@ def tj8(model):
 def ix20(model):
     r = RuleResult('IX20', 'a list that a function builds itself (assigned from [], a comprehension or list(), grown with '
                    'append) is indexed with a literal k >= 1 only where a test of its length covers k: len(L) > k, '
-                   'len(L) >= k + 1, or the negation of len(L) < k + 1 through a short-circuit `or`', floor=3)
+                   'len(L) >= k + 1, or the negation of len(L) < k + 1 through a short-circuit `or`', floor=0)
     for f in model.all_funcs():
         if isinstance(f.node, ast.Lambda) or f.mod.short.startswith('shell'):
             continue
@@ -542,6 +542,11 @@ def fd1(model):
                 continue
 
             def excl(e, t, name=None):
+                # a local flag that stands for `needle in hay`
+                if isinstance(e, ast.Name) and getattr(e, '_fn', None) is not None:
+                    vs = T.resolve_local(model, e)
+                    if len(vs) == 1 and vs[0] is not e and isinstance(vs[0], ast.Compare):
+                        return excl(vs[0], t, name)
                 # needle in hay
                 if isinstance(e, ast.Compare) and len(e.ops) == 1 and isinstance(e.ops[0], (ast.In, ast.NotIn)) \
                         and unparse(e.left) == needle and unparse(e.comparators[0]) == hay:
@@ -595,4 +600,256 @@ def fd1(model):
                            'occur, the slice ends one character early (or the index wraps around)'
                            % (qn, unparse(n)[:50], needle[:30]),
                            witness='a file without \\end{document} that ends with \\input{part-b}')
+    return r
+
+
+# ----------------------------------------------------------------------------- DT2
+def dt2(model):
+    from .r6 import _tri_tok
+    r = RuleResult('DT2', 'the text of a \\verb token is data: in the token loop of expand_math_section a VerbatimToken is '
+                   'taken by a branch that tests its class before any branch compares tok.txt with the stop tokens, '
+                   'operators or ignore lists (\\verb?$? inside a formula must not close it)', floor=1)
+    f = model.func('mathparser.MathParser.expand_math_section')
+    loops = [s for s in f.node.body if isinstance(s, ast.While)]
+    if not loops:
+        raise AnalysisError('anchor vanished: token loop of expand_math_section')
+    lp = loops[0]
+    tokname = None
+    for s in lp.body:
+        if isinstance(s, ast.Assign) and isinstance(s.targets[0], ast.Name) and isinstance(s.value, ast.Call) \
+                and _call_name(s.value) in ('skip_space', 'cur', 'next'):
+            tokname = s.targets[0].id
+            break
+    if tokname is None:
+        raise AnalysisError('anchor vanished: current token of the loop in expand_math_section')
+    done = False
+    for s in lp.body:
+        if done or not isinstance(s, ast.If):
+            continue
+        node = s
+        while True:
+            v = _tri_tok(node.test, tokname, 'VerbatimToken')
+            if v is True:
+                r.ok(node, 'a VerbatimToken is taken by its own branch', nontrivial=True)
+                done = True
+                break
+            if v is None:
+                r.fail(node, 'a VerbatimToken reaches the test `%s`, which compares its text: \\verb material that '
+                       'happens to equal a stop token, operator or ignored macro is interpreted as markup'
+                       % unparse(node.test)[:60], witness='A $x \\verb?$? y$ B')
+                done = True
+                break
+            if len(node.orelse) == 1 and isinstance(node.orelse[0], ast.If):
+                node = node.orelse[0]
+                continue
+            if node.orelse:
+                r.ok(node, 'a VerbatimToken falls through to the default branch (element)', nontrivial=True)
+                done = True
+            break
+    if not done:
+        r.undec(lp, 'if-chain of the token loop not recognised')
+        r.instances += 1
+    return r
+
+
+# ----------------------------------------------------------------------------- TO1
+# declarations whose argument code ends with an optional argument: when the option is absent the look-ahead
+# for it swallows the white space behind the call, so such a declaration is justified only where LaTeX
+# documents a trailing optional argument (reason per entry; anything else is a finding)
+TO1_ALLOWED = {
+    ('packages.amsthm', 'proof'): '\\begin{proof}[title] (amsthm)',
+    ('packages.biblatex', '\\printbibliography'): '\\printbibliography[options] (biblatex)',
+    ('packages.unicode_math', '\\setmathfont'): '\\setmathfont{font}[features] (unicode-math)',
+    ('parameters', 'figure'): '\\begin{figure}[placement]',
+    ('parameters', 'table'): '\\begin{table}[placement]',
+    ('parameters', '\\newtheorem'): '\\newtheorem{name}[counter]{title}[within]',
+    ('parser', '\\item'): '\\item[label]',
+    ('handlers', 'name'): 'environments made by \\newtheorem: \\begin{theorem}[note]',
+}
+
+
+def to1(model):
+    from .. import tables
+    r = RuleResult('TO1', 'a declaration ends with an optional argument only where LaTeX documents one (table '
+                   'TO1_ALLOWED in the checker, one reason per entry): for every call without the option the search '
+                   'for it runs over the white space behind the call, and the following word is glued on', floor=5)
+    for ent in tables.registry(model):
+        code = ent['args'] if ent['args'] is not None else ent['kw'].get('args')
+        if not (isinstance(code, ast.Constant) and isinstance(code.value, str) and code.value.endswith('O')):
+            continue
+        nm = ent['name'].value if isinstance(ent['name'], ast.Constant) else unparse(ent['name'])
+        key = (ent['node']._mod.short, nm)
+        if key in TO1_ALLOWED:
+            r.ok(ent['node'], 'documented trailing option: ' + TO1_ALLOWED[key], nontrivial=True)
+        else:
+            r.fail(ent['node'], '%s is declared with the argument code %r in %s: LaTeX documents no optional argument '
+                   'behind its last mandatory one; every call swallows the white space that follows it'
+                   % (nm, code.value, ent['node']._mod.short), stmt='trailing option of ' + nm,
+                   witness='beta\\label{x} gamma  ->  betagamma')
+    return r
+
+
+# ----------------------------------------------------------------------------- GUARD1
+def guard1(model):
+    r = RuleResult('GUARD1', 're-entrancy guard: a function that refuses to run when its key is already in a list of an '
+                   'object (`if k in x.L: <fatal / return>`) and then appends the key removes it again (pop / remove / '
+                   'del) - otherwise the second legitimate call with the same key is refused', floor=0)
+    for f in model.all_funcs():
+        if isinstance(f.node, ast.Lambda):
+            continue
+        for n in iter_scope(f.node):
+            if not (isinstance(n, ast.If) and always_exits(n.body)):
+                continue
+            fs = []
+            guards.split_fact(n.test, True, fs)
+            for e, t in fs:
+                if not (t and isinstance(e, ast.Compare) and len(e.ops) == 1 and isinstance(e.ops[0], ast.In)
+                        and isinstance(e.comparators[0], ast.Attribute)):
+                    continue
+                lst, key = unparse(e.comparators[0]), unparse(e.left)
+                apps = [c for c in iter_scope(f.node) if isinstance(c, ast.Call) and isinstance(c.func, ast.Attribute)
+                        and c.func.attr in ('append', 'add') and unparse(c.func.value) == lst and c.args
+                        and unparse(c.args[0]) == key and c.lineno > n.lineno]
+                if not apps:
+                    continue
+                rem = [c for c in iter_scope(f.node) if (isinstance(c, ast.Call) and isinstance(c.func, ast.Attribute)
+                                                         and c.func.attr in ('pop', 'remove', 'discard', 'clear')
+                                                         and unparse(c.func.value) == lst)
+                       or (isinstance(c, ast.Delete) and any(lst in unparse(t_) for t_ in c.targets))
+                       or (isinstance(c, ast.Assign) and any(unparse(t_) == lst for t_ in c.targets))]
+                # does the function do more than record (i.e. guard some work)?
+                if rem:
+                    r.ok(apps[0], 'the key is removed again from %s' % lst, nontrivial=True)
+                elif any(isinstance(c, ast.Call) and c.lineno > apps[0].lineno and _call_name(c) not in ('append', 'add')
+                         for c in iter_scope(f.node)):
+                    r.fail(apps[0], '%s: the key %s is recorded in %s to refuse re-entrant calls, but never removed: a '
+                           'second, independent call with the same key is refused as well' % (f.qname, key, lst),
+                           witness='a document that reads the same definition file twice with \\LTinput')
+    return r
+
+
+# ----------------------------------------------------------------------------- SBL3
+def sbl3(model):
+    r = RuleResult('SBL3', 'sibling agreement in handlers.py: the handlers that read a file or module name from an '
+                   'argument (\\LTinput, \\usepackage / \\documentclass) all read it with get_text_expanded - a name '
+                   'built with a macro must be expanded before it is used', floor=2)
+    sites = []
+    for q in ('handlers.h_load_defs', 'handlers.h_load_module'):
+        if not model.has_func(q):
+            raise AnalysisError('anchor vanished: function ' + q)
+        f = model.func(q)
+        fns = [f] + list(getattr(f, 'nested', {}).values())
+        for g in fns:
+            for n in iter_scope(g.node):
+                if isinstance(n, ast.Assign) and isinstance(n.value, (ast.Call,)) and len(n.targets) == 1 \
+                        and isinstance(n.targets[0], ast.Name) and n.targets[0].id in ('file', 'packs', 'name', 'fn', 'fname'):
+                    c = n.value
+                    while isinstance(c, ast.Call) and isinstance(c.func, ast.Attribute) and c.func.attr in ('strip',):
+                        c = c.func.value
+                    if isinstance(c, ast.Call) and _call_name(c).startswith('get_text'):
+                        sites.append((g, n, _call_name(c)))
+    if len(sites) < 2:
+        raise AnalysisError('anchor vanished: name arguments of h_load_defs / h_load_module')
+    for g, n, fn in sites:
+        if fn == 'get_text_expanded':
+            r.ok(n, '%s reads the name with get_text_expanded' % g.qname, nontrivial=True)
+        else:
+            r.fail(n, '%s reads the name with %s, its siblings with get_text_expanded: a file name that contains a '
+                   'macro is used unexpanded and the file is "not readable"' % (g.qname, fn),
+                   witness='\\newcommand{\\defsdir}{.}\\LTinput{\\defsdir/defs.tex}')
+    return r
+
+
+# ----------------------------------------------------------------------------- UK8
+def uk8(model):
+    r = RuleResult('UK8', 'the shell prints the list of unknowns as the filter returned it: output_list_unknown writes '
+                   'its text parameter itself, not a re-formatted copy (names may contain blanks: \\begin{proof sketch})',
+                   floor=1)
+    f = model.func('shell.gentext.output_list_unknown')
+    par = f.params[0]
+    writes = [c for c in iter_scope(f.node) if isinstance(c, ast.Call) and _call_name(c) == 'write' and c.args]
+    hit = False
+    for c in writes:
+        a = c.args[0]
+        if isinstance(a, ast.Name) and a.id == par:
+            hit = True
+            r.ok(c, 'the text of the filter is written unchanged', nontrivial=True)
+        elif any(isinstance(x, ast.Name) and x.id != par and isinstance(x.ctx, ast.Load) for x in ast.walk(a)) \
+                and any(isinstance(x, ast.Call) and _call_name(x) in ('join', 'split', 'splitlines', 'format')
+                        for x in list(ast.walk(a)) + [v for nm in ast.walk(a) if isinstance(nm, ast.Name)
+                                                      for v in T.resolve_local(model, nm)]):
+            r.fail(c, 'the list of unknowns is re-formatted before it is written (%s): a name that contains a blank is '
+                   'split into several lines' % unparse(a)[:50], witness='\\begin{proof sketch} with --list-unknown')
+            hit = True
+    if not hit:
+        r.undec(f.node, 'output of the list not recognised')
+        r.instances += 1
+    return r
+
+
+# ----------------------------------------------------------------------------- NS1
+def ns1(model):
+    r = RuleResult('NS1', 'option values are data: no module of the shell passes them through shlex (a backslash in '
+                   '--single-letters z.\\,B. or --replace is part of the value; shlex.split removes it)', floor=0)
+    n_mod = 0
+    for m in model.mods.values():
+        n_mod += 1
+        for n in ast.walk(m.tree):
+            if isinstance(n, ast.Import) and any(a.name == 'shlex' for a in n.names) \
+                    or isinstance(n, ast.ImportFrom) and n.module == 'shlex':
+                uses = [c for c in ast.walk(m.tree) if isinstance(c, ast.Call) and 'shlex' in unparse(c.func)
+                        or (isinstance(c, ast.Call) and isinstance(c.func, ast.Name) and c.func.id in ('split', 'quote')
+                            and isinstance(n, ast.ImportFrom))]
+                tgt = uses[0] if uses else n
+                r.fail(tgt, '%s uses shlex: backslashes and quotes inside option values are interpreted and removed'
+                       % m.name, witness='a configuration file with  single-letters z.\\,B.')
+    r.instances += n_mod
+    return r
+
+
+# ----------------------------------------------------------------------------- ORD1
+def ord1(model):
+    r = RuleResult('ORD1', 'derived fields are computed from the final value: in the loop of generate_html that collects '
+                   'the highlighted places, an attribute that is computed from h.beg / h.end (line numbers) is assigned '
+                   'after the last assignment of h.beg / h.end in the loop body', floor=1)
+    f = model.func('shell.genhtml.generate_html')
+    fns = [f] + [g for g in model.all_funcs() if g.mod is f.mod and g is not f and not isinstance(g.node, ast.Lambda)]
+    seen = False
+    for g in fns:
+        for lp in iter_scope(g.node):
+            if not isinstance(lp, ast.For):
+                continue
+            # top-level statements of the loop body, flattened with their index
+            stores = {}
+            derived = []
+            for i, s in enumerate(lp.body):
+                for n in ast.walk(s):
+                    if isinstance(n, (ast.Assign, ast.AugAssign)):
+                        tg = n.targets if isinstance(n, ast.Assign) else [n.target]
+                        for t in tg:
+                            if isinstance(t, ast.Attribute) and isinstance(t.value, ast.Name):
+                                key = (t.value.id, t.attr)
+                                stores.setdefault(key, []).append(i)
+                                if isinstance(n, ast.Assign):
+                                    reads = {(x.value.id, x.attr) for x in ast.walk(n.value) if isinstance(x, ast.Attribute)
+                                             and isinstance(x.value, ast.Name) and isinstance(x.ctx, ast.Load)}
+                                    derived.append((i, key, reads, n))
+            for i, key, reads, n in derived:
+                for rk in reads:
+                    if rk == key or rk[0] != key[0] or rk[1] not in ('beg', 'end'):
+                        continue
+                    if key[1] in ('beg', 'end'):
+                        continue
+                    seen = True
+                    last = max(stores.get(rk, [-1]))
+                    if last > i:
+                        r.fail(n, '%s.%s is computed from %s.%s, which is corrected further down in the same loop body: '
+                               'the derived value belongs to the uncorrected one' % (key[0], key[1], rk[0], rk[1]),
+                               witness='a match whose end maps to an earlier source line than its start, --context 0')
+                    else:
+                        r.ok(n, '%s.%s computed after the last assignment of %s.%s' % (key[0], key[1], rk[0], rk[1]),
+                             nontrivial=True)
+    if not seen:
+        r.undec(f.node, 'derived line fields of the highlight records not recognised')
+        r.instances += 1
     return r
